@@ -21,12 +21,12 @@ RULE = ('programs: scope-shape generator (nested function declarations / named a
         'free names equal to the first names the generator hands out, labels, accessor bodies; scopes with up to 3000 '
         'locals so that two- and three-letter names incl. do/if/in/for/new/var/try occur), Annex A derivations and the '
         'corpus, all without with/eval; configurations {obfuscate_globals} x {shadow_funcname} x {minify, '
-        'minify+drop_semi, Unparser(obfuscate, indent)}; a case = (program, configuration); non-trivial = at least one '
+        'minify+drop_semi, Unparser(obfuscate, indent)}; every second case on a printer object that has already printed another tree; a case = (program, configuration); non-trivial = at least one '
         'binding was renamed; distinct by that pair.')
 ASSUMPTIONS = ['refscope implements ES5 scoping (10.2, 10.5, 12.14, 13); programs using with / direct eval are out of scope',
                'the rule composition passes reserved_keywords exactly as minify_printer does']
 BUDGET_S = {'quick': 70, 'thorough': 900}
-REQUIRED_HITS = ['obfuscated_print', 'occurrences_checked', 'Obfuscator.finalize', 'NameGenerator.next']
+REQUIRED_HITS = ['obfuscated_print', 'occurrences_checked', 'Obfuscator.finalize', 'NameGenerator.next', 'reused_printer']
 FLOOR = {'quick': 1500, 'thorough': 30000}
 
 RESERVED = refjs.RESERVED
@@ -285,7 +285,17 @@ class Hooks(object):
         self.ctx.extra['longest_generated_name__max'] = self.longest
 
 
-def check(ctx, text, cfgs, origin):
+_warm = []
+
+
+def warm_tree():
+    if not _warm:
+        from calmjs.parse.parsers.es5 import parse
+        _warm.append(parse('function warm(p) { var q = p; return q; } var top = warm(free);'))
+    return _warm[0]
+
+
+def check(ctx, text, cfgs, origin, reuse=False):
     res, rerr = work.run_ref(text)
     if res is None or work.uncertain(res, rerr) or work.skip_known(ctx, text, res):
         return
@@ -303,7 +313,13 @@ def check(ctx, text, cfgs, origin):
     for cname, og, make in cfgs:
         try:
             plain = ''.join(f.text for f in make(False)(tree))
-            obf = ''.join(f.text for f in make(True)(tree))
+            printer = make(True)
+            if reuse:
+                # the printer object has been used before (C14 demands it is reusable; users do reuse them)
+                for f in printer(warm_tree()):
+                    pass
+                ctx.hit('reused_printer')
+            obf = ''.join(f.text for f in printer(tree))
         except RecursionError:
             ctx.count('skipped:resource_limit')
             continue
@@ -314,7 +330,7 @@ def check(ctx, text, cfgs, origin):
             continue
         orr, oerr = work.run_ref(obf)
         if orr is None:
-            ctx.violation('C07:obfuscated_output_does_not_parse', {'text': text, 'config': cname},
+            ctx.violation('C07:obfuscated_output_does_not_parse', {'text': text, 'config': cname, 'reuse': reuse},
                           'the obfuscated output is rejected (%s) while the un-obfuscated output of the same printer '
                           'parses\ninput: %r\nobfuscated: %r' % (oerr, text[:300], obf[:300]))
             break
@@ -339,7 +355,7 @@ def check(ctx, text, cfgs, origin):
                  sample={'origin': origin, 'config': cname, 'plain': plain[:140], 'obfuscated': obf[:140]}
                  if (renamed and ctx.rng.random() < 0.002) else None)
         if v:
-            ctx.violation(v[0], {'text': text, 'config': cname},
+            ctx.violation(v[0], {'text': text, 'config': cname, 'reuse': reuse},
                           '%s\nconfiguration %s\ninput: %r\nplain:      %r\nobfuscated: %r' % (
                               v[1], cname, text[:400], plain[:400], obf[:400]))
             break
@@ -354,7 +370,7 @@ def run(ctx):
         for i in range(n):
             text = scope_program(rng, big=(rng.choice([60, 300, 800, 3000]) if i % 97 == 5 else 0))
             sel = cfgs if (ctx.tier == 'thorough' or i % 6 == 0) else [cfgs[i % len(cfgs)], cfgs[(i * 5 + 3) % len(cfgs)]]
-            check(ctx, text, sel, 'scope_shape')
+            check(ctx, text, sel, 'scope_shape', reuse=bool(i & 1))
             if not (i & 0xf) and ctx.time_left() < ctx.budget_s * 0.3:
                 break
 
@@ -362,7 +378,7 @@ def run(ctx):
             return jsgen.Opts(clean=True, allow_with=False)
         progs = work.Programs(ctx, ctx.pick(120, 2500), opts_fn=opts_fn, layouts=('space', 'lines'))
         for i, (text, meta) in enumerate(progs):
-            check(ctx, text, [cfgs[i % len(cfgs)], cfgs[(i + 7) % len(cfgs)]], meta['origin'])
+            check(ctx, text, [cfgs[i % len(cfgs)], cfgs[(i + 7) % len(cfgs)]], meta['origin'], reuse=bool(i & 1))
             if ctx.out_of_time():
                 break
         progs.report()
@@ -374,7 +390,7 @@ def replay(ctx, witness):
     hooks = Hooks(ctx).install()
     try:
         cfgs = [c for c in configs() if c[0] == witness.get('config')] or configs()
-        check(ctx, witness['text'], cfgs, 'replay')
+        check(ctx, witness['text'], cfgs, 'replay', reuse=bool(witness.get('reuse')))
     finally:
         hooks.remove()
 
